@@ -43,6 +43,7 @@ type httpSim struct {
 	timeoutS  int // time-out of the program under test: silence lasts longer than that
 }
 
+var jobIDRe = regexp.MustCompile(`<id>[0-9]+</id>`)
 var statusAttrRe = regexp.MustCompile(`status\s*=\s*['"]success['"]`)
 var keyRe = regexp.MustCompile(`key=[^&]*&`)
 var passRe = regexp.MustCompile(`password=[^&]*`)
@@ -227,6 +228,22 @@ func (h *httpSim) handle(w http.ResponseWriter, r *http.Request) {
 		case "errsuccess":
 			w.Write([]byte(`<response status="error" code="13"><msg>commit was not a success: candidate configuration locked</msg></response>`))
 			return
+		case "commit_nojob":
+			// status="success", no top-level <msg>, a <result> without <job>: no job was enqueued
+			if strings.Contains(q, "type=commit") {
+				w.Write([]byte(`<response status="success" code="19"><result><msg><line>Commit request received</line></msg></result></response>`))
+				return
+			}
+		case "commit_emptyjob":
+			if strings.Contains(q, "type=commit") {
+				w.Write([]byte(`<response status="success" code="19"><result><job></job></result></response>`))
+				return
+			}
+		case "commit_textjob":
+			if strings.Contains(q, "type=commit") {
+				w.Write([]byte(`<response status="success" code="19"><result><job>none</job></result></response>`))
+				return
+			}
 		case "commitmsg":
 			if strings.Contains(q, "type=commit") {
 				w.Write([]byte(`<response status="success" code="19"><msg>Commit failed, success not reached</msg></response>`))
@@ -273,6 +290,9 @@ func (h *httpSim) panos(w http.ResponseWriter, r *http.Request, q string) {
 		} else {
 			fmt.Fprint(w, `<response status="success" code="19"><result><job>6</job></result></response>`)
 		}
+	case v.Get("type") == "op" && strings.Contains(v.Get("cmd"), "<jobs>") && !jobIDRe.MatchString(v.Get("cmd")):
+		// a real device rejects a poll for a job id that is not a number
+		fmt.Fprint(w, `<response status="error" code="7"><msg><line>job id is invalid</line></msg></response>`)
 	case v.Get("type") == "op" && strings.Contains(v.Get("cmd"), "<jobs>"):
 		h.mu.Lock()
 		n := h.polls
